@@ -1,4 +1,5 @@
 import Canopy.Proof.StoreState
+import Canopy.Proof.Indexer
 import Canopy.Props.C19
 /-!
 # C10 — store read semantics and immutability of committed history
@@ -206,6 +207,129 @@ theorem fsm_stored_keys_prefix_free (k1 k2 : C19.FsmKey) (h1 : Stored k1) (h2 : 
   rw [C19.FsmKey.encode_eq, C19.FsmKey.encode_eq]
   congr 1
   cases k1 <;> cases k2 <;> simp_all [Stored, C19.FsmKey.segs, List.cons_prefix_cons]
+
+/-! ## blocks, QCs and transactions: the indexer partition and the process-wide block cache
+
+`Canopy/Model/Indexer.lean`: `IndexBlock` / `IndexQC` / `IndexTx` into the `i/` partition of the same
+versioned key space (committed in the same batch, pruned by `Rollback`), the reads
+`GetBlockByHeight` / `GetBlockHeaderByHeight` / `GetBlockByHash` / `GetQCByHeight` / `GetTxByHash` /
+`GetTxsByHeight` on the store object and on read-only views, and `blockCache` — one LRU of 64 entries
+keyed by height for the whole process. `IInv K IK s m`: the state invariant of C10 plus: every entry of
+the indexer partition is a key of `IK` (prefix-free, `WFKeys IK`) committed at a version in `[1, version]`. -/
+
+/-- every state reached from the empty process by operations over keys of `K` / index keys of `IK` -/
+theorem reachable_iinv (K IK : Bytes → Prop) (hK : WFKeys K) (ops : List IOp) (hops : ∀ op ∈ ops, IOpOK K IK op)
+    (hb : ops.length + 1 < maxVer) : ∃ m, IInv K IK (runIOps {} ops) m := by
+  obtain ⟨m, hi, _⟩ := (IInv.init K IK).run hK ops hops (by simpa using hb) 0 (Nat.le_refl _)
+    (fun op _ => by cases op with
+      | store o => cases o <;> simp [IKeeps, KeepsHistory]
+      | _ => trivial)
+  exact ⟨m, hi⟩
+
+/-- **`index_history_immutable`** — what a read-only view at a committed version `v` reads from the
+DATABASE part of the indexer never changes, whatever happens later (indexing, commits, abandoned
+commits, rollbacks to heights ≥ `v`, any reads): every point read of any key, the per-height
+transaction list, and every block assembled from them. -/
+theorem index_history_immutable (K IK : Bytes → Prop) (hK : WFKeys K) (hIK : WFKeys IK)
+    (hpfx : ∀ h, PfxOK IK (txHeightKey h)) (s : IState) (m : VMap) (hi : IInv K IK s m) (ops : List IOp)
+    (hops : ∀ op ∈ ops, IOpOK K IK op) (hver : s.st.version + ops.length + 1 < maxVer)
+    (v : Nat) (hv : v ≤ s.st.version) (hkeep : ∀ op ∈ ops, IKeeps v op) :
+    (∀ k, ((runIOps s ops).ro v).getB k = (s.ro v).getB k) ∧
+    (∀ h, ((runIOps s ops).ro v).txsByHeight h = (s.ro v).txsByHeight h) ∧
+    (∀ hk t, ((runIOps s ops).ro v).getBlock hk t = (s.ro v).getBlock hk t) ∧
+    (∀ h, ((runIOps s ops).ro v).dbBlockByHeight h = (s.ro v).dbBlockByHeight h) ∧
+    (∀ h, ((runIOps s ops).ro v).dbQCByHeight h = (s.ro v).dbQCByHeight h) ∧
+    (∀ hash, ((runIOps s ops).ro v).getBlockByHash hash = (s.ro v).getBlockByHash hash) ∧
+    (∀ hash, ((runIOps s ops).ro v).getTxByHash hash = (s.ro v).getTxByHash hash) := by
+  obtain ⟨m', hi', _, hle, _, hag⟩ := hi.run hK ops hops hver v hv hkeep
+  have hmv : maxVer = 18446744073709551615 := rfl
+  exact iview_agree hIK hi'.idx hi.idx (by omega) (by omega) (by omega) hag hpfx
+
+/-- **`block_history_immutable`** (database part): the block at any height — by height and by hash,
+header, hash and transaction list — as read by a view at committed version `v`, bypassing the cache -/
+theorem block_history_immutable (K IK : Bytes → Prop) (hK : WFKeys K) (hIK : WFKeys IK)
+    (hpfx : ∀ h, PfxOK IK (txHeightKey h)) (s : IState) (m : VMap) (hi : IInv K IK s m) (ops : List IOp)
+    (hops : ∀ op ∈ ops, IOpOK K IK op) (hver : s.st.version + ops.length + 1 < maxVer)
+    (v : Nat) (hv : v ≤ s.st.version) (hkeep : ∀ op ∈ ops, IKeeps v op) (h : Nat) (hash : Bytes) :
+    ((runIOps s ops).ro v).dbBlockByHeight h = (s.ro v).dbBlockByHeight h ∧
+    ((runIOps s ops).ro v).getBlockByHash hash = (s.ro v).getBlockByHash hash :=
+  have r := index_history_immutable K IK hK hIK hpfx s m hi ops hops hver v hv hkeep
+  ⟨r.2.2.2.1 h, r.2.2.2.2.2.1 hash⟩
+
+/-- **`qc_history_immutable`**: the quorum certificate of any height as read by a view at `v` -/
+theorem qc_history_immutable (K IK : Bytes → Prop) (hK : WFKeys K) (hIK : WFKeys IK)
+    (hpfx : ∀ h, PfxOK IK (txHeightKey h)) (s : IState) (m : VMap) (hi : IInv K IK s m) (ops : List IOp)
+    (hops : ∀ op ∈ ops, IOpOK K IK op) (hver : s.st.version + ops.length + 1 < maxVer)
+    (v : Nat) (hv : v ≤ s.st.version) (hkeep : ∀ op ∈ ops, IKeeps v op) (h : Nat) :
+    ((runIOps s ops).ro v).dbQCByHeight h = (s.ro v).dbQCByHeight h :=
+  (index_history_immutable K IK hK hIK hpfx s m hi ops hops hver v hv hkeep).2.2.2.2.1 h
+
+/-- the real index keys (32-byte hashes) satisfy the hypotheses -/
+theorem index_keys_wf : WFKeys IdxKey ∧ ∀ h, PfxOK IdxKey (txHeightKey h) := ⟨idxKey_wf, idxKey_pfx⟩
+
+/-! ### through the cache the property FAILS
+
+The full-strength statement — `GetBlockByHeight` *as the API answers it*, i.e. through `blockCache`,
+is unchanged — is false of the code. What holds: -/
+
+/-- `GetBlockByHeight` of a view at `v`, as answered, is unchanged between two states -/
+def BlockReadStable (s s' : IState) (v h : Nat) : Prop :=
+  (getBlockByHeight s'.cache (s'.ro v) h).1 = (getBlockByHeight s.cache (s.ro v) h).1
+
+instance (s s' : IState) (v h : Nat) : Decidable (BlockReadStable s s' v h) := by
+  unfold BlockReadStable; infer_instance
+
+/-- **`block_history_immutable_partial`**: when the cache holds nothing for that height in either state
+the answer is the database part, hence unchanged (the excluded region — a cache entry for the height —
+is exactly where the witnesses below live) -/
+theorem block_history_immutable_partial (K IK : Bytes → Prop) (hK : WFKeys K) (hIK : WFKeys IK)
+    (hpfx : ∀ h, PfxOK IK (txHeightKey h)) (s : IState) (m : VMap) (hi : IInv K IK s m) (ops : List IOp)
+    (hops : ∀ op ∈ ops, IOpOK K IK op) (hver : s.st.version + ops.length + 1 < maxVer)
+    (v : Nat) (hv : v ≤ s.st.version) (hkeep : ∀ op ∈ ops, IKeeps v op) (h : Nat)
+    (hc : s.cache.lookup h = none) (hc' : (runIOps s ops).cache.lookup h = none) :
+    BlockReadStable s (runIOps s ops) v h := by
+  unfold BlockReadStable getBlockByHeight
+  rw [hc, hc']
+  exact (block_history_immutable K IK hK hIK hpfx s m hi ops hops hver v hv hkeep h []).1
+
+/-- two blocks committed at heights 1 and 2 (QC + block indexed before each commit) -/
+def twoBlocks : List IOp :=
+  [.store (.set [1, 97] [1]), .indexQC 1 [0xB1], .indexBlock 1 [0xB1] [[0x71]], .store .commit,
+   .store (.set [1, 97] [2]), .indexQC 2 [0xB2], .indexBlock 2 [0xB2] [], .store .commit]
+
+/-- **the cache serves uncommitted and stale blocks** (each replayed on the real store by the Go driver,
+cases `blockcache-*`, signature `C10:block-cache-serves-uncommitted-or-stale-block`):
+(a) after the entry for height 2 left the cache (64 other reads, or a restart), a view at version 1
+asks for height 2: its miss is cached, and the STORE ITSELF then answers an empty block for the
+committed height 2; (b) a view at version 1 is served block 2; (c) a block indexed for a commit that
+was abandoned is served to the store and to the view at version 1; (d) a header-only read replaces the
+cached block by one without its transactions. -/
+theorem block_cache_serves_uncommitted_or_stale_block :
+    -- (a)
+    (let s := runIOps {} (twoBlocks ++ (List.range 64).map (fun i => .getBlock none (1000 + i) false) ++
+        [.getBlock (some 1) 2 false])
+     s.st.version = 2 ∧ s.live.dbBlockByHeight 2 = { hHeight := 2, hash := [0xB2], txs := [] } ∧
+     (getBlockByHeight s.cache s.live 2).1 = {}) ∧
+    -- (b)
+    (let s := runIOps {} twoBlocks
+     (s.ro 1).dbBlockByHeight 2 = {} ∧ (getBlockByHeight s.cache (s.ro 1) 2).1 = { hHeight := 2, hash := [0xB2], txs := [] }) ∧
+    -- (c)
+    (let s := runIOps {} (twoBlocks.take 4 ++ [.indexBlock 2 [0xEE] [], .reset])
+     s.st.version = 1 ∧ s.live.dbBlockByHeight 2 = {} ∧
+     (getBlockByHeight s.cache s.live 2).1 = { hHeight := 2, hash := [0xEE], txs := [] } ∧
+     (getBlockByHeight s.cache (s.ro 1) 2).1 = { hHeight := 2, hash := [0xEE], txs := [] }) ∧
+    -- (d)
+    (let s := runIOps {} (twoBlocks.take 4 ++ [.purgeCache, .getBlock none 1 true])
+     s.live.dbBlockByHeight 1 = { hHeight := 1, hash := [0xB1], txs := [[0x71]] } ∧
+     (getBlockByHeight s.cache s.live 1).1 = { hHeight := 1, hash := [0xB1], txs := [] }) := by
+  decide +kernel
+
+/-- hence the full-strength statement is false: between the state after `twoBlocks` (plus the eviction)
+and the state after one more READ by a historical view, the store's own answer for height 2 changes -/
+theorem block_read_not_stable :
+    let s := runIOps {} (twoBlocks ++ [.purgeCache])
+    ¬ BlockReadStable s (runIOps s [.getBlock (some 1) 2 false]) 2 2 := by
+  decide +kernel
 
 /-! ## non-vacuity -/
 
